@@ -41,6 +41,10 @@ pub const S_UNCLAMPED_EXT: u8 = 19;
 // special R (identity, torsion points, non-canonical identity encodings, random) TOGETHER with a degenerate S (0, 1,
 // 8, L-1, L) under the honest large-order key: the equation cannot hold; judged by the model
 pub const S_SPECIAL_R_AND_S: u8 = 20;
+// small-order key A together with a small-order component T in R: R = [S]B + T with S = 0 or a boundary scalar, and a
+// message searched so that T + h*A = O under both readings of h - a triple that satisfies the equation although neither
+// R nor A is the identity (arg = j | k << 3 | s-class << 6)
+pub const S_TORSION_PAIR: u8 = 21;
 const KINDS: &[&str] = &[
     "deliver_untouched",
     "flip_signature_bit",
@@ -63,6 +67,7 @@ const KINDS: &[&str] = &[
     "crafted_equation_with_boundary_s",
     "honest_signature_from_unclamped_extended_secret",
     "special_r_with_degenerate_s",
+    "small_order_key_with_small_order_r",
 ];
 
 /// encodings that decode to the identity but are not its canonical 32 bytes:
@@ -117,6 +122,40 @@ pub fn honest(seed: &[u8; 32], msg: &[u8], extended: bool) -> ([u8; 32], [u8; 64
 /// with R = enc(identity), so that h*A = O for a torsion A under either reading of "h"
 pub fn torsion_message(key: &[u8; 32], mseed: u64) -> Option<Vec<u8>> {
     torsion_message_r(&TORSION[0], key, mseed)
+}
+
+/// message for which T + h*A = O, h taken mod 8 and both readings of h (the 512-bit integer, the integer mod L) agreeing
+/// mod 8; falls back to the first message on which the readings agree (the equation then fails); `r` is what is hashed
+pub fn torsion_pair_message(r: &[u8; 32], t: &[u8; 32], key: &[u8; 32], mseed: u64) -> Option<(Vec<u8>, bool)> {
+    // c*A for c = 0..7 by repeated addition in the model, then the residues c that cancel T
+    let mut good = [false; 8];
+    let mut acc = TORSION[0];
+    for c in 0..8 {
+        if let Some(sum) = med::add_encoded(&acc, t) {
+            good[c] = sum == TORSION[0];
+        }
+        acc = med::add_encoded(&acc, key)?;
+    }
+    let mut fallback = None;
+    for i in 0..512u64 {
+        let m = data(crate::rng::splitmix64(mseed ^ i.wrapping_mul(0x9E3779B97F4A7C15)) | 16, 16);
+        let mut pre = Vec::with_capacity(80);
+        pre.extend_from_slice(r);
+        pre.extend_from_slice(key);
+        pre.extend_from_slice(&m);
+        let h = crate::model::sha512::sha512(&pre);
+        let (c1, c2) = ((h[0] & 7) as usize, (big::mod_l(&h)[0] & 7) as usize);
+        if c1 != c2 {
+            continue;
+        }
+        if good[c1] {
+            return Some((m, true));
+        }
+        if fallback.is_none() {
+            fallback = Some(m);
+        }
+    }
+    fallback.map(|m| (m, false))
 }
 
 /// same search with an arbitrary 32-byte R in the hashed prefix
@@ -207,6 +246,13 @@ impl SigChannel {
         }
         for v in 0..7u64 {
             ops.push(Op::new(0, S_UNCLAMPED_EXT).arg(v).seed(rng.data_seed()));
+        }
+        // (small-order key, small-order R) pairs with S = 0 (24 of the 64 per run), and a sample with R = [S]B + T
+        for _ in 0..24 {
+            ops.push(Op::new(0, S_TORSION_PAIR).arg(rng.below(64)).seed(rng.data_seed()));
+        }
+        for _ in 0..6 {
+            ops.push(Op::new(0, S_TORSION_PAIR).arg(rng.below(64) | (rng.range(1, 3) << 6) | (rng.below(5 * 256 * 3) << 8)).seed(rng.data_seed()));
         }
         // R given as a non-canonical encoding of the point the equation yields: byte equality must fail
         for j in 0..8u64 {
@@ -479,6 +525,41 @@ impl Scenario for SigChannel {
                     }
                     use_model = true;
                 }
+                S_TORSION_PAIR => {
+                    let j = (op.arg & 7) as usize;
+                    let k = ((op.arg >> 3) & 7) as usize;
+                    p = TORSION[j];
+                    let sv = match (op.arg >> 6) & 3 {
+                        0 => [0u8; 32],
+                        1 => {
+                            let mut one = [0u8; 32];
+                            one[0] = 1 + (op.seed % 7) as u8;
+                            one
+                        }
+                        _ => big::boundary_scalar(op.arg >> 8),
+                    };
+                    let r = if sv == [0u8; 32] {
+                        TORSION[k]
+                    } else {
+                        match med::add_encoded(&med::encode_scalarmult_base(&sv), &TORSION[k]) {
+                            Some(x) => x,
+                            None => continue,
+                        }
+                    };
+                    match torsion_pair_message(&r, &TORSION[k], &p, op.seed) {
+                        Some((tm, cancels)) => {
+                            m = tm;
+                            obs.hit(if cancels { "probe.small_order_r_cancels_h_times_small_order_key" } else { "probe.small_order_r_does_not_cancel" });
+                        }
+                        None => {
+                            obs.hit("skipped.no_torsion_message_in_512_tries");
+                            continue;
+                        }
+                    }
+                    s[..32].copy_from_slice(&r);
+                    s[32..].copy_from_slice(&sv);
+                    use_model = true;
+                }
                 S_UNCLAMPED_EXT => {
                     // extended secret = scalar (32 bytes, below 2^255, not clamped) || prefix (32 bytes)
                     let mut ext = [0u8; 64];
@@ -561,6 +642,7 @@ impl Scenario for SigChannel {
                 S_UNCLAMPED_EXT => "channel.untouched_unclamped_extended_signer",
                 S_SPECIAL_R_AND_S => "fault.byzantine_special_r_with_degenerate_s",
                 S_TORSION_NONCANONICAL_R => "fault.byzantine_small_order_key_noncanonical_r",
+                S_TORSION_PAIR => "fault.byzantine_small_order_key_with_small_order_r",
                 _ => "fault.byzantine_small_order_key",
             });
             obs.cov(((op.k as u32) << 4) | (lenc << 1) | want as u32);
